@@ -562,3 +562,98 @@ def interval_of(st, name, window=(-4, 8)):
         if n == name:
             return (a, b)
     return window
+
+
+def atom_forward(fn, classify, kill=None, limit=20000):
+    """Path-sensitive facts with constant propagation of integer locals.
+
+    classify(rel) -> iterable of (fact name, bool) implied when the relation rel = (lhs, op, rhs) holds;
+    kill(site) -> iterable of fact names the event invalidates.  Besides the facts, the state carries the known
+    constant values of integer locals (assigned constants, `|=`, `&=`, `+=`, `-=` of constants), so that a
+    condition encoded into a flag variable and tested later (`have |= 2; ... switch (have)`) prunes the
+    infeasible combinations exactly like the nested ifs it replaces.
+    Returns before: site key -> set of states; use facts_of(state) / consts_of(state)."""
+    def apply_op(op, a, c):
+        try:
+            return {'=': c, '|=': a | c, '&=': a & c, '+=': a + c, '-=': a - c, '^=': a ^ c, '<<=': a << c, '>>=': a >> c, '*=': a * c}[op]
+        except Exception:
+            return None
+
+    def holds(v, op, c):
+        return {'==': v == c, '!=': v != c, '<': v < c, '<=': v <= c, '>': v > c, '>=': v >= c}[op]
+
+    def on_event(st, s):
+        facts, consts = st
+        ev = s.ev
+        if kill is not None:
+            ks = set(kill(s) or ())
+            if ks:
+                facts = tuple(x for x in facts if x[0] not in ks)
+        v = rhs = op = None
+        if ev['k'] == 'store' and is_var(ev.get('lhs')) and ev['lhs'].get('sc') == 'local':
+            v, rhs, op = ev['lhs']['name'], ev.get('rhs'), ev.get('op')
+        elif ev['k'] == 'decl' and ev.get('var'):
+            v, rhs, op = ev['var'], ev.get('init'), '='
+        if v is not None:
+            d = dict(consts)
+            c = const_of(rhs) if rhs is not None else None
+            if op in ('++', '--') and v in d:
+                d[v] = d[v] + (1 if op == '++' else -1)
+            elif op == '=' and isinstance(c, int):
+                d[v] = c
+            elif op in ('|=', '&=', '+=', '-=', '^=', '<<=', '>>=', '*=') and isinstance(c, int) and v in d and apply_op(op, d[v], c) is not None:
+                d[v] = apply_op(op, d[v], c)
+            else:
+                d.pop(v, None)
+            consts = tuple(sorted(d.items()))
+        return (facts, consts)
+
+    def add_facts(facts, new):
+        d = dict(facts)
+        for k, val in new:
+            if k in d and d[k] != val:
+                return None
+            d[k] = val
+        return tuple(sorted(d.items()))
+
+    def on_edge(st, e):
+        facts, consts = st
+        d = dict(consts)
+        if e.label in ('case', 'default') and e.cond is not None:
+            if is_var(e.cond) and e.cond['name'] in d:
+                v = d[e.cond['name']]
+                if e.label == 'case' and v not in (e.vs or []):
+                    return None
+                if e.label == 'default' and v in (e.notin or []):
+                    return None
+            elif is_var(e.cond) and e.cond.get('sc') == 'local' and e.label == 'case' and e.vs and len(e.vs) == 1:
+                d[e.cond['name']] = e.vs[0]
+                consts = tuple(sorted(d.items()))
+            return (facts, consts)
+        r = edge_rel(e)
+        if not r:
+            return st
+        l, op, rr = r
+        c = const_of(rr)
+        if is_var(l) and l.get('sc') == 'local' and isinstance(c, int) and op in ('==', '!=', '<', '<=', '>', '>='):
+            if l['name'] in d:
+                if not holds(d[l['name']], op, c):
+                    return None
+            elif op == '==':
+                d[l['name']] = c
+                consts = tuple(sorted(d.items()))
+        # a masked test of a known flag word: (v & K) != 0
+        if isinstance(l, dict) and l.get('k') == 'bin' and l.get('op') == '&' and is_var(l.get('l')) and l['l']['name'] in d and isinstance(const_of(l.get('r')), int) and isinstance(c, int) \
+                and op in ('==', '!='):
+            if not holds(d[l['l']['name']] & const_of(l['r']), op, c):
+                return None
+        nf = add_facts(facts, list(classify(r) or ()))
+        if nf is None:
+            return None
+        return (nf, consts)
+    before, at_exit, sin, bout = fn.forward(((), ()), on_event, on_edge, limit=limit)
+    return before
+
+
+def facts_of(st):
+    return dict(st[0])
